@@ -136,6 +136,39 @@ def r01_1(ctx, rep, roles, snd):
             rep.obligation(ok, "C01/R01.1/wire-set-max-version",
                            "Delta::get_operations emits SetMaxVersion=%s when key_values empty=%s and max>0=%s" % (bool(smv), empty, pos),
                            where(fx.fns[c]), sample="get_operations: SetMaxVersion iff empty and max_version > 0")
+    if not found:
+        # loop style: `for node_delta in &self.node_deltas { ops.push(Node{..}); for kv in .. { ops.push(KeyValue) }; if kvs.is_empty() && max > 0 { ops.push(SetMaxVersion) } }`
+        for f in go:
+            frows = eng.table(f["id"], arg_terms={1: ("ptr", ("S", "self"), ())})
+            for row in frows:
+                empty = pos = None
+                for cnd in row.cond:
+                    t = T.resolve_locals(eng, row.store, cnd[1]) if cnd[0] == "truth" else None
+                    if t is not None and t[0] == "call" and t[1].endswith("is_empty") and T.mentions_field(t, "delta::NodeDelta", "key_values"):
+                        empty = cnd[2]
+                    if t is not None and t[0] == "op" and T.mentions_field(t, "delta::NodeDelta", "max_version"):
+                        try:
+                            rw = lambda u: T.R("mv") if T.last_field(u) == ("delta::NodeDelta", "max_version") else None
+                            pos = oe.ev(T.rewrite(t, rw), {T.R("mv"): 1}) == cnd[2] and oe.ev(T.rewrite(t, rw), {T.R("mv"): 0}) != cnd[2]
+                        except Exception:
+                            pos = None
+                if empty is None:
+                    continue
+                pushed = []
+                for e in row.calls():
+                    if sym.strip_all_generics(e[1]).split("::")[-1] == "push" and "Vec" in e[1]:
+                        v = T.resolve_locals(eng, row.store, e[2][1])
+                        if v[0] == "agg" and v[1] == "delta::DeltaOpRef":
+                            pushed.append(v)
+                smv = [a for a in pushed if a[2] == "SetMaxVersion"]
+                found = True
+                want = empty is True and pos is True
+                ok = bool(smv) == want
+                if smv:
+                    ok = ok and T.last_field(T.field(smv[0], "max_version")) == ("delta::NodeDelta", "max_version")
+                rep.obligation(ok, "C01/R01.1/wire-set-max-version",
+                               "Delta::get_operations emits SetMaxVersion=%s when key_values empty=%s and max>0=%s" % (bool(smv), empty, pos),
+                               where(f), sample="get_operations: SetMaxVersion iff empty and max_version > 0")
     rep.obligation(found, "C01/R01.1/wire-anchor", "cannot find the op generator of Delta (get_operations)")
     rep.instance(n_set + n_w)
 
